@@ -169,6 +169,7 @@ Definition prop_idxread (input obs : val) : val :=
    input = (source kind, opts, file, header-oracle table, codec, queries, expect)
      source kind: 0 bytes.Reader | 1 Read+Seek only | 2 plain io.Reader | 3 os.File
                   | 4 io.ReaderAt through NewReader(..).DataReader()
+                  | 5 bufio.Reader over a plain reader | 6 bytes.Buffer (plain streams with ReadByte)
      opts = (zeroLengthAsEOF maxHeader storeIdentity maxIndexCidSize)
      codec: 0x0400 | 0x0401 | 0x300003 (InsertionIndex handed to LoadIndex)
      expect (for the property predicate only) = (tvalid hlen blocks payload pad) | (tnone)
@@ -180,7 +181,10 @@ Definition codec_insertion : N := 3145731. (* 0x300003 *)
 Definition v_gopts (v : val) : gopts :=
   mkgopts (vbool (vnth 0 v)) (vN (vnth 1 v)) (vbool (vnth 2 v)) (vN (vnth 3 v)).
 
-Definition src_of_kind (k : N) : srckind := if k =? 2 then SrcPlain else SrcSeek.
+(* 2 plain io.Reader, 5 bufio.Reader, 6 bytes.Buffer: no Seek method, so ToByteReadSeeker puts the
+   discarding wrapper around them whether or not they have ReadByte *)
+Definition src_of_kind (k : N) : srckind :=
+  if (k =? 2) || (k =? 5) || (k =? 6) then SrcPlain else SrcSeek.
 
 Definition run_load (fx : fixes) (input : val) : res (list irec) :=
   let kind := vN (vnth 0 input) in
@@ -216,7 +220,8 @@ Definition run_idxgen (input : val) : val := run_idxgen_with repaired input.
 
 (* the clauses of C03 on what the implementation returned, for a constructed archive *)
 Definition class_of_kind (k : N) : string :=
-  if k =? 2 then "plain-reader" else if k =? 4 then "reader-at" else "seekable".
+  if k =? 2 then "plain-reader" else if k =? 4 then "reader-at"
+  else if (k =? 5) || (k =? 6) then "plain-bytereader" else "seekable".
 Definition fail3 (clause cls : string) : val := VL [VT "FAIL"; VT clause; VT cls].
 
 Definition prop_idxgen (input obs : val) : val :=
